@@ -47,7 +47,7 @@ def settingsRead? (fuel : Nat) (d : Bytes) (last i : Nat) (s : SettingsVal) : Op
       let key := b0 * 256 + b1
       let v := b2 * 16777216 + b3 * 65536 + b4 * 256 + b5
       let s := { s with pairs := s.pairs ++ [(key, v)] }
-      if key = Gen.c_HeaderTableSize then settingsRead? fuel d i (i + 6) { s with tableSize := v }
+      if key = Gen.c_HeaderTableSize then settingsRead? fuel d i (i + 6) { s with tableSize := v, hasTableSize := true }
       else if key = Gen.c_EnablePush then
         if v > 1 then pure (.inr Gen.c_ProtocolError) else settingsRead? fuel d i (i + 6) { s with enablePush := v != 0 }
       else if key = Gen.c_MaxConcurrentStreams then settingsRead? fuel d i (i + 6) { s with maxStreams := v }
